@@ -4,6 +4,7 @@ mod c26;
 mod c27;
 mod c28;
 mod c34;
+mod c41;
 
 use mc_core::{Cli, Report};
 
@@ -15,6 +16,7 @@ fn main() {
         "C27" => c27::run(&cli),
         "C28" => c28::run(&cli),
         "C34" => c34::run(&cli),
+        "C41" => c41::run(&cli),
         other => {
             eprintln!("unknown property {other}");
             std::process::exit(2)
